@@ -26,10 +26,11 @@ class Oracle:
 
     def finish(self, w: Any) -> None:
         proc = w.proc
-        items, how, reassign = self.unit[0]
+        items, how, reassign = self.unit[0][:3]
+        shape = self.unit[0][3] if len(self.unit[0]) > 3 else 'flat'
         failing = [i for i, (_, o) in enumerate(items) if o in ('exc', 'kill')]
         names = [t[0] for t in w.trace]
-        feats = {'how': how, 'n': len(items), 'kinds': sorted({k for k, _ in items}), 'outcomes': sorted({o for _, o in items}),
+        feats = {'how': how, 'shape': shape, 'n': len(items), 'kinds': sorted({k for k, _ in items}), 'outcomes': sorted({o for _, o in items}),
                  'paused_ops': sorted({r['op'] for r in w.calls if r['origin'] == 'env'})}
         w.result.nontrivial = len(w.completion_order) >= 2 and w.completion_order != sorted(
             w.completion_order, key=lambda x: x if isinstance(x, int) else x[1])
@@ -110,6 +111,16 @@ def units_for(tier: str) -> List[Any]:
                     if reassign and any(o != 'ok' for _, o in items):
                         continue
                     units.append(((items, how, reassign), None))
+    # items that are already resolved when they are handed over (alone, and next to a pending one)
+    for items in ((('done', 'ok'),), (('done', 'exc'),), (('done', 'ok'), ('done', 'ok')), (('done', 'ok'), ('gate', 'ok')),
+                  (('gate', 'ok'), ('done', 'exc')), (('done', 'ok'), ('child', 'ok'))):
+        for how in ('return', 'call'):
+            units.append(((items, how, False), None))
+    # the registering step inside a loop / a branch (its return value has to travel through the nested steppers)
+    for shape in ('while', 'if', 'while-if'):
+        for items in ((('gate', 'ok'),), (('gate', 'exc'),), (('child', 'ok'),), (('gate', 'ok'), ('child', 'kill'))):
+            for how in ('return', 'call'):
+                units.append(((items, how, False, shape), None))
     return units
 
 
@@ -124,7 +135,7 @@ def run_check(tier: str, seed: int, workers: Any) -> Dict[str, Any]:
         assumptions=['single event loop thread', 'K=1 pause/play is beyond the statement\'s quantifier and kept because '
                      'it exercises the same barrier code'],
         bounds=dict(budget, n_items=2 if tier == 'quick' else 3),
-        describe=lambda u: {'items': u[0][0], 'how': u[0][1], 'reassign': u[0][2]})
+        describe=lambda u: {'items': u[0][0], 'how': u[0][1], 'reassign': u[0][2], 'shape': u[0][3] if len(u[0]) > 3 else 'flat'})
 
 
 replay = PROP.replay
